@@ -121,8 +121,9 @@ def handlePt (verb : String) (kv : List (String × String)) : String :=
   | "fused" => match getInts kv "full", getNats kv "P", getNat kv "step" with
       | some full, some P, some step =>
           "buckets=" ++ joinWith "|" ((buckets P step).map rNats) ++ ";div=" ++
-            (if full.isEmpty then "unknown" else match fusedDivisions full P step with
-              | some d => rInts d
+            (if full.isEmpty then "unknown" else match fusedDivisionsGuarded full P step with
+              | some (some d) => rInts d
+              | some none => "unknown"
               | none => "ERR IndexError")
       | _, _, _ => "BAD params"
   | "bjoinkeys" => match getNats kv "P" with
@@ -206,7 +207,8 @@ def handleLn (verb : String) (kv : List (String × String)) : String :=
   | "lenrule" => match get kv "frame", getBool kv "lp", getBool kv "childlp", (get kv "deps").bind parseNats,
                        getBool kv "concat0", getNat kv "ndim", getNat kv "ncols" with
       | some cls, some lp, some clp, some deps, some c0, some ndim, some ncols =>
-          Divs.rLenAction (Divs.lenRule cls lp clp deps c0 ndim ncols)
+          Divs.rLenAction (Divs.lenRule cls lp clp deps c0 ndim ncols
+            ((getBool kv "sel").getD false) ((getBool kv "childsel").getD false))
       | _, _, _, _, _, _, _ => "BAD params"
   | "sizerule" => match getBool kv "frame", getNat kv "ncols" with
       | some isFrame, some ncols => let (m, _) := Divs.sizeRule isFrame ncols; toString m
